@@ -288,6 +288,10 @@ var c08Sources = []string{
 	`L(1, I) + Inc(J) + BM(2)`, `Cat(S, "x") + LS(2, S2)`, `Var(I, S, F)`, `Tuple(I, J)`, `N.Sum() + P.Twice()`, `Es[0].Label("p")`, `{a: I, b: [J, 2], c: S}`,
 	`all(Es, {.V > 0 or .Name matches "^a"})`, `count(Grid, {len(#) > 1})`, `M.a + MA.k + len(MS)`, `P?.Next?.V`, `Arr[I] + Xs[J]`, `Boom(1)`, `I / (J - J)`, `Xs[100]`,
 	`map(Xs, {Es[#].Name})`, `S[1:2] + Ss[0]`, `F * 2.5 + Half(G)`, `U8 + I16 * I32 - I64`, `not (B and T) ? "y" : "n"`, `N.Deep.PE.Name`,
+	// patterns known at run time only (valid or not, by the environment); sources of several lines that fail at
+	// run time beyond the first line, so that whatever error reporting derives from the source runs concurrently
+	`S matches S2`, `any(Ss, {# matches S2}) or BS matches S`, "S2\n matches\n\tS or\n Boom(2) > 0", "I +\n  Xs[100 +\n J]", "map(Xs,\n {Es[# + 100]\n\t.Name})",
+	"\n\n'é日本' + S +\n Ss[50]", "1 +\r\n I / (J - J)",
 }
 
 func genC08(t *rapid.T, cfg *core.Config) *core.Case {
